@@ -105,6 +105,8 @@ class C14(object):
         d = zlib.crc32(repr(sorted(case.items())).encode())
         case["retry_body"] = "proxy_issue" if d % 3 == 0 else "asynq"
         case["coarse_keys"] = (d // 3) % 3 == 0
+        case["two_route"] = (d // 9) % 2 == 0
+        case["perf"] = (d // 18) % 2 == 0
         return case
 
     def sample(self, case, r):
@@ -114,6 +116,8 @@ class C14(object):
         real.reset_world()
         spec = {"templates": [{"kind": "fn", "steps": []}], "root": {"tmpl": 0}, "kinds": 3, "svs": 1,
                 "faults": {}, "prio": case.get("prio", {}), "clock": {"seed": 1, "mode": "small"}}
+        if case.get("perf"):
+            spec["options"] = {"COLLECT_PERF_STATS": True}  # profiling on: batching must be the same
         B = real.RealBackend(spec, ())
         B.setup()
         out = []
@@ -157,12 +161,31 @@ class C14(object):
             return kv
 
         @A.asynq()
+        def sub_request():
+            nitem[0] += 1
+            it = real.SimItem(B.current[0], "h.i%d" % nitem[0], "k", B)
+            my_items.append(it.tok)
+            yield it
+
+        two_route = bool(case.get("two_route"))
+
+        @A.asynq()
+        def noop():
+            return None
+
+        @A.asynq()
         def akey_plain(x):
             if blocking:
-                nitem[0] += 1
-                it = real.SimItem(B.current[0], "h.i%d" % nitem[0], "k", B)
-                my_items.append(it.tok)
-                yield it
+                if two_route and isinstance(x, int) and x % 2:
+                    # this element takes another route to the same service: a step that needs no
+                    # request, then a sub-task that issues it
+                    yield noop.asynq()
+                    yield sub_request.asynq()
+                else:
+                    nitem[0] += 1
+                    it = real.SimItem(B.current[0], "h.i%d" % nitem[0], "k", B)
+                    my_items.append(it.tok)
+                    yield it
             return sync_key(x)
         kk = case.get("key_kind", "asynq")
         if kk == "made":
